@@ -531,10 +531,14 @@ class DataFile:
       # assume that VP < max number of rows/2 means bottom-aligned and otherwise top-aligned
       # probably should offer an option to override this
 
-      if tti.VP < self.get_max_row_count() // 2:
+      # rows are numbered from 1: VP = 0 (allowed for open subtitles) is the top row
+
+      vp = max(tti.VP, 1)
+
+      if vp < self.get_max_row_count() // 2:
         # top-aligned large region
         
-        r_y = DEFAULT_VERTICAL_SAFE_MARGIN_PCT + ((tti.VP - 1) / self.get_max_row_count()) * safe_area_height
+        r_y = DEFAULT_VERTICAL_SAFE_MARGIN_PCT + ((vp - 1) / self.get_max_row_count()) * safe_area_height
         r_height = 100 - DEFAULT_VERTICAL_SAFE_MARGIN_PCT - r_y
         
         region = _get_region_from_model(
@@ -549,7 +553,6 @@ class DataFile:
       else:
 
         line_count = tf.line_count(self.tti_tf, is_double_height_characters)
-        vp = tti.VP
         line_height = 2 if is_double_height_characters else 1
 
         r_y = DEFAULT_VERTICAL_SAFE_MARGIN_PCT
